@@ -92,8 +92,11 @@ impl Property for C17 {
         let coll = (any::<bool>(), small(), small(), small(), iso_strategy(3.0), prop_oneof![Just(1e-3), Just(1e-4), 1e-5..2e-3f64])
             .prop_map(|(source, base, dir, k, motion, thin)| Case::Collinear { source, base, dir, k, motion, thin });
         let tr = (vec3(10.0), vec3(10.0)).prop_map(|(p, q)| Case::Translation { p, q });
-        let ft = (robot_sane(DofChoice::Six), prop_oneof![iso_strategy(0.3), iso_strategy(2.0)], joints_uniform(), prev_2pi(), prop_oneof![2 => Just(None), 1 => robot_sane(DofChoice::Six).prop_map(Some)])
-            .prop_map(|(robot, frame, j, prev, other)| Case::Transformed { robot, frame, j, prev, other });
+        let ft = (robot_sane(DofChoice::Six), prop_oneof![iso_strategy(0.3), iso_strategy(2.0)], joints_uniform(), prev_2pi(), other_robot(DofChoice::Six, false))
+            .prop_map(|(robot, frame, j, prev, other)| {
+                let other = resolve_other(&robot, other, false);
+                Case::Transformed { robot, frame, j, prev, other }
+            });
         prop_oneof![6 => triple, 2 => coll, 1 => tr, 3 => ft].boxed()
     }
     fn check(&self, c: &Case, ctx: &mut Ctx) -> Res {
